@@ -194,4 +194,217 @@ theorem sum_cnt (L : Nat) (hL : 1 ≤ L) : ∑ k ∈ Finset.range L, cnt L k = 2
   obtain ⟨n, rfl⟩ : ∃ n, L = n + 1 := ⟨L - 1, by omega⟩
   rw [key n (le_refl _)]; simp
 
+/-! ### the grid -/
+
+/-- independent Gaussian noise on the two real dimensions -/
+noncomputable def noise2 (σ : ℝ) : Measure (ℝ × ℝ) := (noise σ).prod (noise σ)
+
+instance (σ : ℝ) : IsProbabilityMeasure (noise2 σ) := by unfold noise2; infer_instance
+
+/-- grid point in column `j`, row `i` (rows count downwards, as in `_createConstellation`) -/
+noncomputable def gpt (h : ℝ) (L j i : Nat) : ℝ × ℝ := (lev h L j, -(lev h L i))
+
+/-- the `L × L` table in the order of `qamGrid`: index `i·L + j` -/
+noncomputable def gridTable (h : ℝ) (L : Nat) : List (ℝ × ℝ) :=
+  (List.range (L * L)).map (fun idx => gpt h L (idx % L) (idx / L))
+
+theorem mem_gridTable {h : ℝ} {L : Nat} {q : ℝ × ℝ} (hq : q ∈ gridTable h L) :
+    ∃ j i, j < L ∧ i < L ∧ q = gpt h L j i := by
+  simp only [gridTable, List.mem_map, List.mem_range] at hq
+  obtain ⟨idx, hidx, rfl⟩ := hq
+  have hL : 0 < L := by
+    rcases Nat.eq_zero_or_pos L with h0 | h0
+    · subst h0; simp at hidx
+    · exact h0
+  exact ⟨idx % L, idx / L, Nat.mod_lt _ hL, Nat.div_lt_of_lt_mul hidx, rfl⟩
+
+theorem gpt_mem_gridTable (h : ℝ) {L j i : Nat} (hj : j < L) (hi : i < L) : gpt h L j i ∈ gridTable h L := by
+  simp only [gridTable, List.mem_map, List.mem_range]
+  refine ⟨i * L + j, ?_, ?_⟩
+  · calc i * L + j < i * L + L := by omega
+      _ = (i + 1) * L := by ring
+      _ ≤ L * L := by rw [Nat.mul_comm]; exact Nat.mul_le_mul_left L hi
+  · have h1 : (i * L + j) % L = j := by rw [Nat.add_comm, Nat.add_mul_mod_self_right, Nat.mod_eq_of_lt hj]
+    have h2 : (i * L + j) / L = i := by
+      rw [Nat.add_comm, Nat.add_mul_div_right _ _ (by omega : 0 < L), Nat.div_eq_of_lt hj, Nat.zero_add]
+    rw [h1, h2]
+
+theorem gridTable_getElem? (h : ℝ) {L j i : Nat} (hj : j < L) (hi : i < L) :
+    (gridTable h L)[i * L + j]? = some (gpt h L j i) := by
+  have hlt : i * L + j < L * L := by
+    calc i * L + j < i * L + L := by omega
+      _ = (i + 1) * L := by ring
+      _ ≤ L * L := by rw [Nat.mul_comm]; exact Nat.mul_le_mul_left L hi
+  have h1 : (i * L + j) % L = j := by rw [Nat.add_comm, Nat.add_mul_mod_self_right, Nat.mod_eq_of_lt hj]
+  have h2 : (i * L + j) / L = i := by
+    rw [Nat.add_comm, Nat.add_mul_div_right _ _ (by omega : 0 < L), Nat.div_eq_of_lt hj, Nat.zero_add]
+  simp [gridTable, hlt, h1, h2]
+
+theorem gpt_inj {h : ℝ} (hh : 0 < h) {L j i j' i' : Nat} (e : gpt h L j i = gpt h L j' i') : j = j' ∧ i = i' := by
+  simp only [gpt, Prod.mk.injEq, neg_inj] at e
+  exact ⟨lev_inj hh L j j' e.1, lev_inj hh L i i' e.2⟩
+
+theorem gridTable_nodup {h : ℝ} (hh : 0 < h) (L : Nat) : (gridTable h L).Nodup := by
+  unfold gridTable
+  apply List.Nodup.map_on _ List.nodup_range
+  intro a ha b hb e
+  rw [List.mem_range] at ha hb
+  obtain ⟨e1, e2⟩ := gpt_inj hh e
+  rw [← Nat.div_add_mod a L, ← Nat.div_add_mod b L, e1, e2]
+
+/-- noise vectors that keep `(j,i)` (weakly) nearest -/
+def Ac (L : Nat) (h : ℝ) (j i : Nat) : Set (ℝ × ℝ) := Jc L h j ×ˢ ((fun y => -y) ⁻¹' Jc L h i)
+/-- noise vectors that keep `(j,i)` strictly nearest -/
+def Ao (L : Nat) (h : ℝ) (j i : Nat) : Set (ℝ × ℝ) := Jo L h j ×ˢ ((fun y => -y) ⁻¹' Jo L h i)
+
+theorem closedCell_subset {h : ℝ} (hh : 0 < h) {L j i : Nat} (hj : j < L) (hi : i < L) (n : ℝ × ℝ)
+    (hn : ((gpt h L j i).1 + n.1, (gpt h L j i).2 + n.2) ∈ closedCell (gridTable h L) (gpt h L j i)) :
+    n ∈ Ac L h j i := by
+  simp only [closedCell, mem_ofPred_eq] at hn
+  constructor
+  · have := closed1_subset hh L j hj (lev h L j + n.1) (fun j' hj' => by
+      have := hn (gpt h L j' i) (gpt_mem_gridTable h hj' hi)
+      simp only [dist2, gpt] at this
+      linarith)
+    simpa using this
+  · have := closed1_subset hh L i hi (lev h L i - n.2) (fun i' hi' => by
+      have := hn (gpt h L j i') (gpt_mem_gridTable h hj hi')
+      simp only [dist2, gpt] at this
+      nlinarith)
+    simp only [mem_preimage]
+    have e : lev h L i - n.2 - lev h L i = -n.2 := by ring
+    rwa [e] at this
+
+theorem subset_openCell {h : ℝ} (hh : 0 < h) {L j i : Nat} (n : ℝ × ℝ) (hn : n ∈ Ao L h j i) :
+    ((gpt h L j i).1 + n.1, (gpt h L j i).2 + n.2) ∈ openCell (gridTable h L) (gpt h L j i) := by
+  obtain ⟨h1, h2⟩ := hn
+  simp only [mem_preimage] at h2
+  intro q hq hne
+  obtain ⟨j', i', hj', hi', rfl⟩ := mem_gridTable hq
+  have hx : lev h L j + n.1 - lev h L j ∈ Jo L h j := by simpa using h1
+  have hy : lev h L i - n.2 - lev h L i ∈ Jo L h i := by
+    have e : lev h L i - n.2 - lev h L i = -n.2 := by ring
+    rwa [e]
+  simp only [dist2, gpt]
+  have ex : ∀ k, lev h L j + n.1 - lev h L k = (lev h L j + n.1) - lev h L k := fun _ => rfl
+  have ey : ∀ k, -lev h L i + n.2 - -lev h L k = -((lev h L i - n.2) - lev h L k) := fun k => by ring
+  rw [ey i, ey i', neg_mul_neg, neg_mul_neg]
+  by_cases hjj : j' = j
+  · subst hjj
+    have hii : i' ≠ i := by intro e; subst e; exact hne rfl
+    have := open1_superset hh L i (lev h L i - n.2) hy i' hi' hii
+    linarith
+  · have hxs := open1_superset hh L j (lev h L j + n.1) hx j' hj' hjj
+    by_cases hii : i' = i
+    · subst hii; linarith
+    · have := open1_superset hh L i (lev h L i - n.2) hy i' hi' hii
+      linarith
+
+theorem noise_preimage_neg (σ : ℝ) (s : Set ℝ) (hs : MeasurableSet s) :
+    (noise σ).real ((fun y => -y) ⁻¹' s) = (noise σ).real s := by
+  conv_rhs => rw [← noise_neg σ]
+  rw [map_measureReal_apply (by fun_prop) hs]
+
+theorem prob_Ac {σ h : ℝ} (hσ : 0 < σ) (hh : 0 < h) (L j i : Nat) :
+    (noise2 σ).real (Ac L h j i) = (1 - (cnt L j : ℝ) * Qg (h / σ)) * (1 - (cnt L i : ℝ) * Qg (h / σ)) := by
+  unfold noise2 Ac
+  rw [measureReal_prod_prod, noise_preimage_neg σ _ (measurableSet_Jc L h i), prob_Jc hσ hh, prob_Jc hσ hh]
+
+theorem prob_Ao {σ h : ℝ} (hσ : 0 < σ) (hh : 0 < h) (L j i : Nat) :
+    (noise2 σ).real (Ao L h j i) = (1 - (cnt L j : ℝ) * Qg (h / σ)) * (1 - (cnt L i : ℝ) * Qg (h / σ)) := by
+  unfold noise2 Ao
+  rw [measureReal_prod_prod, noise_preimage_neg σ _ (measurableSet_Jo L h i), prob_Jo hσ hh, prob_Jo hσ hh]
+
+/-- the noise vectors for which the detector returns the transmitted index `i·L + j` -/
+def correctNoise (c : List (ℝ × ℝ)) (p : ℝ × ℝ) (idx : Nat) : Set (ℝ × ℝ) :=
+  {n | demod c (p.1 + n.1, p.2 + n.2) = idx}
+
+/-- **probability of a correct decision** for the point in column `j`, row `i` -/
+theorem prob_correct {σ h : ℝ} (hσ : 0 < σ) (hh : 0 < h) {L j i : Nat} (hj : j < L) (hi : i < L) :
+    (noise2 σ).real (correctNoise (gridTable h L) (gpt h L j i) (i * L + j)) =
+      (1 - (cnt L j : ℝ) * Qg (h / σ)) * (1 - (cnt L i : ℝ) * Qg (h / σ)) := by
+  have hget := gridTable_getElem? h hj hi
+  apply le_antisymm
+  · rw [← prob_Ac hσ hh]
+    refine measureReal_mono (fun n hn => ?_) (measure_ne_top _ _)
+    apply closedCell_subset hh hj hi n
+    exact decided_subset_closed _ _ _ hget hn
+  · rw [← prob_Ao hσ hh]
+    refine measureReal_mono (fun n hn => ?_) (measure_ne_top _ _)
+    exact open_subset_decided _ (gridTable_nodup hh L) _ _ hget (subset_openCell hh n hn)
+
+/-- average probability of a correct decision over the `L²` points: `(1 − 2(1 − 1/L)·Q)²` -/
+theorem avg_correct {σ h : ℝ} (hσ : 0 < σ) (hh : 0 < h) {L : Nat} (hL : 1 ≤ L) :
+    (∑ i ∈ Finset.range L, ∑ j ∈ Finset.range L,
+        (noise2 σ).real (correctNoise (gridTable h L) (gpt h L j i) (i * L + j))) / ((L:ℝ) * L) =
+      (1 - 2 * (1 - 1 / (L:ℝ)) * Qg (h / σ)) * (1 - 2 * (1 - 1 / (L:ℝ)) * Qg (h / σ)) := by
+  have hLr : (0:ℝ) < L := by exact_mod_cast hL
+  set Q := Qg (h / σ)
+  have hsum : ∑ k ∈ Finset.range L, (1 - (cnt L k : ℝ) * Q) = (L:ℝ) - 2 * ((L:ℝ) - 1) * Q := by
+    rw [Finset.sum_sub_distrib, ← Finset.sum_mul]
+    have := sum_cnt L hL
+    have h2 : (∑ k ∈ Finset.range L, (cnt L k : ℝ)) = 2 * ((L:ℝ) - 1) := by
+      rw [← Nat.cast_sum, this]; push_cast [Nat.cast_sub hL]; ring
+    rw [h2]; simp
+  have : ∑ i ∈ Finset.range L, ∑ j ∈ Finset.range L,
+      (noise2 σ).real (correctNoise (gridTable h L) (gpt h L j i) (i * L + j)) =
+      (∑ j ∈ Finset.range L, (1 - (cnt L j : ℝ) * Q)) * (∑ i ∈ Finset.range L, (1 - (cnt L i : ℝ) * Q)) := by
+    rw [Finset.sum_mul_sum, Finset.sum_comm]
+    apply Finset.sum_congr rfl; intro j hj
+    apply Finset.sum_congr rfl; intro i hi
+    rw [Finset.mem_range] at hi hj
+    exact prob_correct hσ hh hj hi
+  rw [this, hsum]
+  field_simp
+
+/-! ### the emitted constellation is that grid; the code's formula is that average -/
+
+/-- the scaling constant of `QAM._createConstellation` -/
+noncomputable def qamE (L : Nat) : ℝ :=
+  Real.sqrt ((((L * L - 1 : Nat) : ℝ) * ((2 : Nat) : ℝ)) / ((3 : Nat) : ℝ))
+
+theorem qamNatural_eq_grid (L : Nat) : qamNatural (α := ℝ) L = gridTable (1 / qamE L) L := by
+  simp only [qamNatural, qamGrid, gridTable, List.map_map, Trig.sqrt]
+  apply List.map_congr_left
+  intro idx _
+  simp only [Function.comp, qamGridPoint, gpt, lev, qamE]
+  ext
+  · simp only [Int.cast_add, Int.cast_sub, Int.cast_neg, Int.cast_mul, Int.cast_natCast, Int.cast_one,
+      Int.cast_ofNat]
+    ring
+  · simp only [Int.cast_add, Int.cast_sub, Int.cast_neg, Int.cast_mul, Int.cast_natCast, Int.cast_one,
+      Int.cast_ofNat]
+    ring
+
+/-- **Square QAM is exact.**  For the emitted `L × L` constellation (`M = L²`, unit mean energy) with
+    independent Gaussian noise of variance `σ² = 1/(2γ)` per real dimension, one minus the average (over
+    the `M` equiprobable symbols) probability that the nearest-point detector `demod` returns the
+    transmitted index equals `QAM.calcTheoreticalSER` with `Q` the Gaussian tail. -/
+theorem qam_ser_is_exact (L : Nat) (hL : 2 ≤ L) (s : ℝ) :
+    1 - (∑ i ∈ Finset.range L, ∑ j ∈ Finset.range L,
+          (noise2 (sigma s)).real
+            (correctNoise (qamNatural (α := ℝ) L) (gpt (1 / qamE L) L j i) (i * L + j))) / ((L:ℝ) * L)
+      = qamSER Qg (L * L) s := by
+  have he : 0 < qamE L := qam_scale_pos L hL
+  have hh : 0 < 1 / qamE L := by positivity
+  rw [qamNatural_eq_grid, avg_correct (sigma_pos s) hh (by omega : 1 ≤ L)]
+  have harg : qamArg (L * L) s = 1 / qamE L / sigma s := by
+    rw [qam_arg_general L hL s]
+    have := (sigma_pos s).ne'
+    unfold qamE
+    field_simp
+  have hcoef : qamCoef (α := ℝ) (L * L) = 2 * (1 - 1 / (L:ℝ)) := by
+    rw [qamCoef_eq]
+    have hLr : (2:ℝ) ≤ L := by exact_mod_cast hL
+    have : Real.sqrt ((L * L : Nat) : ℝ) = L := by
+      push_cast; exact Real.sqrt_mul_self (by linarith)
+    rw [this]
+  simp only [qamSER, qamPsc, harg, hcoef]
+  norm_num
+
+/-- every emitted point is one of the grid points the theorem ranges over -/
+theorem qamNatural_getElem? (L : Nat) {j i : Nat} (hj : j < L) (hi : i < L) :
+    (qamNatural (α := ℝ) L)[i * L + j]? = some (gpt (1 / qamE L) L j i) := by
+  rw [qamNatural_eq_grid]; exact gridTable_getElem? _ hj hi
+
 end PyPhysim.C16
